@@ -36,11 +36,11 @@ def run(chk):
         if not ok2:
             raise RuntimeError("harness does not build even without hooks: " + blog2[-600:])
     else:
-        dis, stats, sample = bufcorr.run(chk, binp, 600 if thorough else 200, tag="c04buf", seed_offset=4)
+        dis, stats, sample = bufcorr.run(chk, binp, 3000 if thorough else 200, tag="c04buf", seed_offset=4)
         chk.note("buffer_correspondence", stats)
         chk.add_eval(stats["steps"], stats["steps_followed_by_model"])
     # (1) per-glyph predicates, seeded
-    fl, summary, crashed = e2e.run(chk, binp, "C04", 40000 if thorough else 5000, extra=["--redist", "0"])
+    fl, summary, crashed = e2e.run(chk, binp, "C04", 400000 if thorough else 5000, extra=["--redist", "0"])
     chk.note("flag_predicates", summary)
     chk.add_eval(summary.get("evaluations", 0), summary.get("nontrivial", 0))
     if crashed:
